@@ -57,6 +57,12 @@ def fn_doc(rng):
                     lines.append("")
                     lines.append(pre + "   second paragraph " + ref())
             lines.append("")
+        elif r < 0.78:
+            # a reference hard-wrapped inside its label (labels compare after white-space normalisation)
+            k = rng.choice([x for x in keys if " " in x] or ["b c"])
+            if k not in keys:
+                keys.append(k)
+            lines.append("wrapped [^%s] ref and [^%s] again" % (k.replace(" ", "\n", 1), k)); lines.append("")
         elif r < 0.80:
             lines.append("> [^%s]: quoted definition" % rng.choice(keys)); lines.append("")
         elif r < 0.86:
